@@ -206,15 +206,16 @@ def main():
         if not os.path.exists(d + "result_quick.json"):
             continue
         name = os.path.basename(d.rstrip("/"))
-        rnd = ROUNDS.index(name[-1]) // 2 + 1
+        suffix = name.split("_", 1)[1]
+        rnd = 14 if len(suffix) == 2 else ROUNDS.index(suffix) // 2 + 1
         f = json.load(open(d + "result_first.json")) if os.path.exists(d + "result_first.json") else None
         missed = (name in NOTES) if f is None else not f.get("detected_by")
         firsts[rnd] = firsts.get(rnd, 0) + (1 if missed else 0)
     head = ("\n### 11.5 Independently seeded changes (`/verif/seeded/<id>/`)\n\n"
             f"{total} changes were produced in {max(firsts)} rounds by fresh sub-agents that saw only the text of one property and a scratch worktree "
-            "(two per property and round; ids `_a`,`_b` = round 1, `_c`,`_d` = round 2, `_e`,`_f` = round 3, `_g`,`_h` = round 4, `_i`,`_j` = round 5, `_k`,`_l` = round 6, `_m`,`_n` = round 7, `_o`,`_p` = round 8, `_q`,`_r` = round 9, `_s`,`_t` = round 10, `_u`,`_v` = round 11, `_w`,`_x` = round 12, `_y`,`_z` = round 13; the agents of later rounds were told "
+            "(two per property and round; ids `_a`,`_b` = round 1, `_c`,`_d` = round 2, `_e`,`_f` = round 3, `_g`,`_h` = round 4, `_i`,`_j` = round 5, `_k`,`_l` = round 6, `_m`,`_n` = round 7, `_o`,`_p` = round 8, `_q`,`_r` = round 9, `_s`,`_t` = round 10, `_u`,`_v` = round 11, `_w`,`_x` = round 12, `_y`,`_z` = round 13; round 14, 2026-09-28, has one change per property, id `_aa`; the agents of later rounds were told "
             "what the earlier rounds had produced and asked for something different; round 4 was asked to stay strictly inside the quantifier text, "
-            "round 5 to look for the least obvious failure, round 6 to prefer code no earlier change had touched, round 7 to look for interactions of two features and boundary values, round 8 to write refactorings and small features that drop something the old code did implicitly, round 9 to start from a realistic user model, round 10 to look at life cycles, rejected operations, returned objects and defaults, round 11 to write performance optimisations, round 12 to look for cross-talk between objects that should be independent, round 13 to write MINIMAL mutations: one token or one short expression, as a mutation-testing tool would). Each passes the 110 tests, and its demonstration fails with the change and passes without it "
+            "round 5 to look for the least obvious failure, round 6 to prefer code no earlier change had touched, round 7 to look for interactions of two features and boundary values, round 8 to write refactorings and small features that drop something the old code did implicitly, round 9 to start from a realistic user model, round 10 to look at life cycles, rejected operations, returned objects and defaults, round 11 to write performance optimisations, round 12 to look for cross-talk between objects that should be independent, round 13 to write MINIMAL mutations: one token or one short expression, as a mutation-testing tool would, round 14 - which was told nothing about earlier rounds - to prefer two cooperating sites that each look fine alone, rarely taken branches and alternative call forms). Each passes the 110 tests, and its demonstration fails with the change and passes without it "
             "(re-confirmed by `tools/seedcheck.py import`). `tools/seedcheck.py run` applies a patch to `/repo`, runs the property's quick check "
             "and undoes it (`git checkout -- .`); `run --scratch` does the same on a scratch copy (`VERIF_REPO`) so that runs can go in parallel. "
             f"**{own} of the {total} are detected by the quick check of their own property** (`result_quick.json`, current checks), {other} by the check of the "
